@@ -1174,6 +1174,10 @@ def elementwise(op, operands, kind=None):
         vals = [(g(idx) if g is not None else c) for g, c in zip(getters, consts)]
         return op(*vals)
     out = SymNDArray.from_fn(shape, fn, kind, origin='ufunc')
+    sub = next((a for a in arrs if type(a) is not SymNDArray), None)
+    if sub is not None:
+        # numpy hands ufunc results back as the operand's subclass; __array_finalize__ sees that operand
+        out = type(sub)._make(out.buf, out._view, base=None, finalize_from=sub)
     # affine ranges survive + / - of integer scalars
     if len(operands) == 2 and len(arrs) == 1 and arrs[0].affine is not None and op in (_op_add, _op_sub):
         other = operands[1] if operands[0] is arrs[0] else operands[0]
